@@ -19,13 +19,13 @@ class C20(Check):
                  "recorded per-thread results against the results of the same operations run alone")
     design_ref = "DESIGN.md section 5 (C20)"
     level_text = ("TLC enumerates every interleaving of the footprint model (3 threads x 2 operations quick, 4 x 3 thorough); on the code, 8-16 "
-                  "threads execute a 55-operation catalogue (const members on shared strings and buffers; conversions, formatting incl. long "
+                  "threads execute a 60-operation catalogue (const members on shared strings and buffers; conversions, formatting incl. long "
                   "float renderings, number/text, codecs, streams, buffers on own objects) simultaneously, first use included, under "
                   "ThreadSanitizer, and every recorded result is decided by TLC against the sequential result")
     level_note = ("trusted: TLC/SANY, Json module, ThreadSanitizer's happens-before race detection (a report is independent of timing once "
                   "both accesses execute), the executor's recording code; bounded: the operation catalogue, the schedules the OS produced in "
                   "the executed runs (interleavings are enumerated exhaustively only on the model)")
-    rule = ("K threads x R rounds x 55 operations per process (incl. user-defined literals of every width, each operation with literals of its own), every thread starting round 1 at the same operation (so first-use "
+    rule = ("K threads x R rounds x 60 operations per process (incl. user-defined literals of every width, each operation with literals of its own), every thread starting round 1 at the same operation (so first-use "
             "initialisation races are executed) and later rounds at random offsets; several processes with different seeds; the sequential "
             "reference is computed after the concurrent phase in the same process")
     assumptions = ["on the implementation, interleavings are whatever the scheduler produces; detection of conflicting accesses relies on ThreadSanitizer's "
